@@ -34,6 +34,13 @@ def owner_of(P, f):
 
 
 def run(ctx):
+    # locals / parameters the rules below refer to by name (a rename makes the analysis 'broken', never a violation)
+    ctx.anchor(ctx.fn1('Oomd::Senpai::tick_immediate_backoff'), 'validate', 'reclaim_size', 'current_opt', 'limit_min_bytes_opt', 'original_swappiness', 'cgroup_ctx')
+    ctx.anchor(ctx.fn1('Oomd::Senpai::run'), 'resolvedIt', 'trackedIt', 'resolved_cgroups')
+    ctx.anchor(ctx.fn1('Oomd::Senpai::reclaim'), 'cgroup_ctx', 'size', 'has_memory_reclaim_opt')
+    ctx.anchor(ctx.fn1('Oomd::Senpai::tick'), 'state', 'cgroup_ctx', 'limit_min_bytes_opt', 'limit_max_bytes_opt')
+    ctx.anchor(ctx.fn1('Oomd::Senpai::validateSwap'), 'effective_swap_util_pct_opt')
+    ctx.anchor(ctx.fn1('Oomd::Senpai::initializeCgroup'), 'current_opt', 'start_limit', 'cgroup_ctx')
     P, cg = ctx.prog, ctx.cg
     # ------------------------------------------------ who may write
     n = {k: 0 for k in WRITERS}
